@@ -122,11 +122,32 @@ def generate(rng, tier, seed):
     for _ in range(40 * reps):
         c = Case("wrap:hostile-args", {})
         ver = rng.choice("ABCD")
-        h = make_header(rng, ver, rand_blocks(rng, rng.randrange(0, 3), [0, 5, 251, 252, 70000 if rng.random() < 0.2 else 9]))
+        h = make_header(rng, ver, rand_blocks(rng, rng.randrange(0, 3), [0, 5, 251, 252, rng.choice([65525, 65526, 65530, 65535, 65536, 70000]) if rng.random() < 0.5 else 9]))
         r = wrap_case(c, rb(rng, rng.choice([0, 8, 16, 24, 32, 33])), h, rb(rng, rng.choice([0, 16, 5000, 8192, 9000])), rng.choice([None, -1, 0, 10 ** 6]))
         if not r.ok and r.err != "tr31":
             c.fail(f"wrap escaped as {r.err}")
         yield c
+    # str(header) / dump with block data around the 2-byte extended-length limit
+    for ln in (65524, 65525, 65526, 65527, 65534, 65535, 65536):
+        c = Case("dump:length-limit", {"data_len": ln})
+        ver = rng.choice("ABCD")
+        se = Session(c, rb(rng, 16), make_header(rng, ver, [("KS", "P" * ln)]))
+        for r in (se.str(), se.wrap(rb(rng, 16), None)):
+            if not r.ok and r.err != "tr31":
+                c.fail(f"escaped as {r.err}")
+        yield c
+    # crafted optional-block length fields written with non-ASCII decimal digits
+    for _ in range(10 * reps):
+        ver = rng.choice("ABCD")
+        bs, ksizes, ml = VERS[ver]
+        for lf in ("٠٨", "０８", "0٨", "٠8", "१०", "\U0001d7d8\U0001d7e0"):
+            body = "KS" + lf + "ABCD"
+            body += "PB" + "%02X" % (4 + (-(16 + len(body) + 4)) % bs + bs) + "0" * ((-(16 + len(body) + 4)) % bs + bs)
+            s = ver + "0000" + rs(rng, 7) + "02" + "00" + body + "0" * (2 * bs) + "0" * (2 * ml)
+            s = s[0] + str(len(s)).zfill(4) + s[5:]
+            c = Case("crafted:unicode-digit-length", {})
+            targets(c, rng, rb(rng, ksizes[0]), s)
+            yield c
     # setters and block assignment with hostile values
     for _ in range(60 * reps):
         c = Case("setters:hostile", {})
